@@ -81,6 +81,14 @@ check("C13", "model_checking",
       "finiteness of stored roots; traces validated by TLC.",
       _OPT_NOTE, "TLA+ spec model-checked by TLC (fault enumeration) + fault-injection replay + TLC trace validation", "DESIGN.md §5 C13")
 
+check("C09", "model_checking",
+      "spec/ShampooResume is a twin run: an uninterrupted copy and a copy whose durable state is saved and loaded into a fresh optimizer "
+      "(every volatile variable reset) at an arbitrary point; TLC checks ResumeEquivalence for every mask history, hyper schedule and stop "
+      "point in bounds. Replays do the real save -> bytes -> fresh optimizer -> load -> continue and compare every tensor bitwise with the "
+      "uninterrupted run; mutated checkpoints are compared with the spec's LoadOutcome table (evaluated by TLC).",
+      "Serial layout; fault-free outcomes (failure counters are deliberately not checkpointed). " + _OPT_NOTE,
+      "TLA+ twin-run spec model-checked by TLC + real save/load replay (bitwise) + spec-as-oracle load-outcome table", "DESIGN.md §5 C09")
+
 ALL = [f"C{i:02d}" for i in range(1, 19)]
 
 
